@@ -944,13 +944,13 @@ func runC44R(c c44rCase, r *ev.Rec) error {
 			switch {
 			case last == nil:
 				if len(store[key]) > 0 {
-					r.Class("restore:outside-tolerance")
+					r.Class("outcome:outside-tolerance")
 				} else {
-					r.Class("restore:no-series")
+					r.Class("outcome:no-series")
 				}
 				continue
 			case last.V == value.StaleNaN:
-				r.Class("restore:was-inactive")
+				r.Class("outcome:was-inactive")
 				continue
 			}
 			downAt := last.T
@@ -959,18 +959,18 @@ func runC44R(c c44rCase, r *ev.Rec) error {
 			switch {
 			case remaining <= 0:
 				a.activeAt = origActiveAt // was firing: fires again at once
-				r.Class("restore:was-firing")
+				r.Class("outcome:was-firing")
 			case remaining < c.Grace*1000:
 				a.activeAt = tr + c.Grace*1000 - hold // fires one grace period after the restore
-				r.Class("restore:grace-period")
+				r.Class("outcome:grace-period")
 			default:
 				a.activeAt = origActiveAt + (tr - downAt) // the outage does not count as pending time
-				r.Class("restore:shifted-by-outage")
+				r.Class("outcome:shifted-by-outage")
 			}
 			restoredAny = true
 		}
 	} else {
-		r.Class("restore:for-below-grace")
+		r.Class("outcome:for-below-grace")
 	}
 	if err := cmpActive(fmt.Sprintf("after restore at %d (for=%ds grace=%ds tolerance=%ds, outage=%ds)", tr, c.For, c.Grace, c.Tolerance, c.Outage), rule2, m2); err != nil {
 		return err
